@@ -196,6 +196,12 @@ def main():
     global KNOWN_IDS
     c = Check("C10")
     KNOWN_IDS = ",".join(f["id"] for f in c.known)
+    ov = os.environ.get("VERIF_C10_MATCH_OVERRIDE")   # self-test hook: try a proposed `match` before it is merged
+    if ov:
+        repl = json.load(open(ov))
+        for f in c.known:
+            if f["id"] in repl:
+                f["match"] = repl[f["id"]]
     c.trusted = [
         "Lean 4.33 kernel; axioms per theorem in obligation_list",
         "PROVED (all schemas/objects/fields/fuel): a field of the post-chain IR whose default fits (goFits/pyFits: decidable conditions on field type x dynamic type of the default) holds its declared default/constant in the constructor's JSON, Go and Python, and the two agree; NOT modelled: the front-ends (how `default`/`*v` becomes Type.Default) — the IR comes from the real front-ends and chains in the lab; defaults they drop are found by the source-side oracle only",
